@@ -198,7 +198,7 @@ pub fn program(ch: &mut Choices, o: &WildOpts) -> (Vec<Line>, WildInfo) {
                 }
             }
         };
-        let kind = ch.weighted(&[4, 6, 2, 1, 1, if o.c03_domain { 0 } else { 1 }]);
+        let kind = ch.weighted(&[4, 6, 2, 1, 1, 1]);
         match kind {
             // conditional branch then fall through
             1 => {
@@ -272,13 +272,21 @@ pub fn program(ch: &mut Choices, o: &WildOpts) -> (Vec<Line>, WildInfo) {
             // joins a second ecall that the other path reaches with a known number
             5 => {
                 let lx = format!("r{reg}_x{bi}");
-                term.push(ins("li", vec![r(A7), i(*ch.pick(&[10i64, 93]))]));
+                let first = *ch.pick(&[10i64, 93]);
+                term.push(ins("li", vec![r(A7), i(first)]));
                 term.push(ins(ch.pick_str(&syn::BRANCH2), vec![r(syn::any_reg(ch)), Opd::L(lx.clone())]));
                 if ch.chance(1, 2) {
-                    term.push(ins("li", vec![r(A0), i(ch.int_in(0, 3))]));
+                    // the fall-through path changes the number before its exit: the second ecall is
+                    // an exit only once the edge behind the first one is gone
+                    term.push(ins("li", vec![r(A7), i(103 - first)]));
+                    term.push(ins("ecall", vec![]));
+                } else {
+                    if ch.chance(1, 2) {
+                        term.push(ins("li", vec![r(A0), i(ch.int_in(0, 3))]));
+                    }
+                    term.push(ins("ecall", vec![]));
+                    term.push(ins("li", vec![r(A7), i(*ch.pick(&[1i64, 10, 5, 93]))]));
                 }
-                term.push(ins("ecall", vec![]));
-                term.push(ins("li", vec![r(A7), i(*ch.pick(&[1i64, 10, 5, 93]))]));
                 term.push(Line::Label(lx));
                 term.push(ins("ecall", vec![]));
                 if reg > 0 {
